@@ -98,7 +98,7 @@ def spec_strategy():
     corpus = list(core_corpus().values())
     return st.one_of(
         st.sampled_from(corpus),
-        dag_spec(max_stages=6, allow=("multi", "fail", "cof", "stop", "poll", "skip")),
+        dag_spec(max_stages=6, allow=("multi", "fail", "cof", "stop", "poll", "skip", "disabled")),
         dag_spec(max_stages=5, allow=("multi", "poll"), joins=("AND", "DISC", "NOFM")),
         loop_spec(),
         synthetic_spec(),
@@ -181,7 +181,7 @@ def run(c: Campaign, jobs: int) -> None:
         "single worker thread; SQLite backend only",
     ]
     for cls in ("kind:racy-fail", "kind:early-join", "feat:before-child", "feat:after-child", "feat:onfail-child", "feat:failing-child",
-                "feat:predeclared-child", "feat:parallel-children", "feat:continue-on-failure-child", "feat:stopped-failure", "feat:jump", "feat:suspend", "inj:dup-startstage"):
+                "feat:predeclared-child", "feat:parallel-children", "feat:continue-on-failure-child", "feat:stopped-failure", "feat:disabled", "feat:jump", "feat:suspend", "inj:dup-startstage"):
         if c.classes.get(cls, 0) == 0:
             c.harness_error(f"generator starvation: class {cls} never produced")
 
